@@ -182,6 +182,10 @@ impl<T> Deque<T> {
             self.advance_cursor();
         }
 
+        // Keep the pointer we were given. It is the one stored in the list and in the
+        // cache entry; a pointer re-derived from the `&mut` below would be invalidated
+        // as soon as the node is accessed through one of those again.
+        let node_ptr = node;
         let node = node.as_mut(); // this one is ours now, we can create an &mut.
 
         // Not creating new mutable (unique!) references overlapping `element`.
@@ -196,16 +200,15 @@ impl<T> Deque<T> {
         if let Some(next) = node.next.take() {
             (*next.as_ptr()).prev = node.prev;
 
-            let mut node = NonNull::from(node);
             match self.tail {
                 // Not creating new mutable (unique!) references overlapping `element`.
                 Some(tail) => {
-                    node.as_mut().prev = Some(tail);
-                    (*tail.as_ptr()).next = Some(node)
+                    (*node_ptr.as_ptr()).prev = Some(tail);
+                    (*tail.as_ptr()).next = Some(node_ptr)
                 }
                 None => unreachable!(),
             }
-            self.tail = Some(node);
+            self.tail = Some(node_ptr);
         }
     }
 
